@@ -10,6 +10,8 @@
 #define VC_REACH() __CPROVER_assert(0, "VC_REACH")
 /* trusted: alignment hint is the identity */
 #define __builtin_assume_aligned(p, ...) (p)
+/* spin-wait hint of mi_atomic_yield: no effect */
+#define __builtin_ia32_pause() ((void)0)
 /* nondeterministic scalars come from bodied helpers (bodyless calls are assert(false) under dfcc) */
 /* no string literal reaches the verifier (a havoc of "every object" over string-literal objects aborts CBMC); the draw is
    named after the variable that receives it, which is how the counterexample extractor labels it */
